@@ -237,7 +237,7 @@ func CompareVerdicts(da *Device, a []ACE, aBound bool, db *Device, b []ACE, bBou
 // OtherCanon returns canonical lines for the non-ACL, non-route managed
 // objects reachable from anchors (VPN related objects), with references
 // replaced by content and names of non-fixed objects dropped.
-func (d *Device) OtherCanon() []string {
+func (d *Device) OtherCanon(managed map[string]bool) []string {
 	var res []string
 	// Helper: canonical content of named objects.
 	var canonObj func(kind, name string, depth int) string
@@ -326,6 +326,9 @@ func (d *Device) OtherCanon() []string {
 		w := strings.Fields(l)
 		switch {
 		case len(w) == 5 && w[0] == "crypto" && w[1] == "map" && w[3] == "interface":
+			if managed != nil && !managed[w[4]] {
+				continue
+			}
 			res = append(res, "crypto map interface "+w[4]+" "+canonObj("crypto map", w[2], 0))
 		case w[0] == "tunnel-group-map" && len(w) == 3:
 			res = append(res, "tunnel-group-map default-group "+canonObj("tunnel-group", w[2], 0))
@@ -357,7 +360,7 @@ func (d *Device) OtherCanon() []string {
 			if n, ok := strings.CutPrefix(b.Header, "interface "); ok {
 				for _, s := range b.Sub {
 					w := strings.Fields(s)
-					if len(w) == 3 && w[0] == "crypto" && w[1] == "map" {
+					if len(w) == 3 && w[0] == "crypto" && w[1] == "map" && (managed == nil || managed[n]) {
 						res = append(res, "interface "+n+" crypto map "+d.iosCryptoCanon(w[2]))
 					}
 				}
